@@ -22,6 +22,11 @@ def scenarios(fam):
         out.append(('hostname=route', dict(sc_extra=dict(devices_xml=S.pan_device(hostname='route'))), 'blocked'))
         out.append(('display-name without netspoc', dict(sc_extra=dict(devices_xml=S.pan_device(display='FW7-prod'))), 'blocked'))
         out.append(('no display-name', dict(sc_extra=dict(devices_xml=S.pan_device(display=None))), 'blocked'))
+        M = 'FW-managed-by-Netspoc'
+        for label, disp in (('two vsys, the first without marker', ['DMZ-customer-A', M]), ('two vsys, the second without marker', [M, 'DMZ-customer-B']),
+                            ('three vsys, the middle one without marker', [M, 'lab', M])):
+            out.append((label, dict(sc_extra=dict(devices_xml=S.pan_device2(disp)), target=S.pan_target2(len(disp))), 'blocked'))
+        out.append(('two vsys, both marked', dict(sc_extra=dict(devices_xml=S.pan_device2([M, M])), target=S.pan_target2(2)), 'works'))
         for mode, state in (('Active-Passive', 'passive'), ('Active-Passive', 'suspended'), ('Active-Active', 'active-secondary'),
                             ('Active-Active', 'active'), ('Unknown', 'active')):
             out.append(('HA %s/%s' % (mode, state), dict(sc_extra=dict(ha_enabled='yes', ha_mode=mode, ha_state=state)), 'blocked'))
